@@ -674,7 +674,10 @@ impl File {
         if self.is_generated
             && (!self.is_failed(v) || !newstamp.is_missing())
             && !self.is_override
-            && self.stamp.as_ref() == Some(&newstamp)
+            && self
+                .stamp
+                .as_ref()
+                .map_or(false, |stamp| !Stamp::detect_override(stamp, &newstamp))
         {
             // Target is as we left it.
             return Ok(false);
